@@ -126,8 +126,11 @@ def fresh_outcomes(pool):
 
     def one(it):
         p = subprocess.run([PY, os.path.join(VERIF, "harness", "c17_worker.py")], input=(json.dumps(it) + "\n").encode(), stdout=subprocess.PIPE, stderr=subprocess.PIPE, env=env, timeout=120)
-        out = p.stdout.decode().strip().split("\n")
-        return out[0] if p.returncode == 0 and out and out[0] else "crash:" + p.stderr.decode()[-200:]
+        out = p.stdout.decode().split("\n")
+        try:
+            return json.loads(out[0]) if p.returncode == 0 else "crash:" + p.stderr.decode()[-200:]
+        except ValueError:
+            return "crash:" + (p.stdout.decode() + p.stderr.decode())[-200:]
 
     with concurrent.futures.ThreadPoolExecutor(16) as ex:
         return list(ex.map(one, pool))
